@@ -1,6 +1,6 @@
 SPECIFICATION Spec
 CONSTANTS
-  MaxArgv = 3
+  MaxArgv = 2
   EmitOn = TRUE
 INVARIANTS Emit
 CHECK_DEADLOCK FALSE
